@@ -43,8 +43,14 @@ def gen_payload(rng, kind, uid):
         return pd.DataFrame({'uid': [uid] * max(n, 1), 'x': list(range(max(n, 1))), 's': ['é'] * max(n, 1)})
     if kind == 'npy':
         n = rng.choice([0, 1, 5, 200])
-        dt = rng.choice(['int64', 'float32', 'uint8', 'bool', '<U3', 'object'])
+        dt = rng.choice(['int64', 'float32', 'uint8', 'bool', '<U3', 'object', 'zero_d', 'strided'])
         import numpy as np
+        if dt == 'zero_d':
+            return np.array(uid * 1.5) if rng.random() < 0.5 else np.array(f'u{uid}')
+        if dt == 'strided':
+            # non-contiguous / Fortran-ordered views
+            base = (np.arange(2 * (n + 1) * 3).reshape(2 * (n + 1), 3) + uid).astype('int64')
+            return rng.choice([base[::2], base.T, np.asfortranarray(base)])
         if dt == 'object':
             # the cache stores with pickle and loads with allow_pickle=True: object arrays are in its domain
             a = np.empty(n + 1, dtype=object)
